@@ -314,7 +314,15 @@ func (s scen) buildSrc() (srcStore, func()) {
 		if len(g.Rejects) > 0 {
 			panic("registry model rejected a request: " + g.Rejects[0])
 		}
-		return repo, func() {}
+		// the copy reads through a Repository value of its own (a new process): what the writing one
+		// learnt about the registry's capabilities is not known to it
+		reader, err := remote.NewRepository("reg.example/src/repo")
+		if err != nil {
+			panic(err)
+		}
+		reader.Client = g
+		reader.ReferrerListPageSize = 50
+		return reader, func() {}
 	case "memory-plain", "memory-rich":
 		m := memory.New()
 		push(m, s.src == "memory-rich")
